@@ -9,10 +9,10 @@ EXPLANATION = (
     'non-contextual, resolution (every cell Live, no repeated input), time-relative and capacity verifiers accepted and the '
     'script verifier\'s result is the returned value; (r3) the pool insert is followed on every path by the size test whose '
     'true edge evicts the front, and nothing else grows the pool; (r4) a hash is produced for broadcast only on the '
-    'announced-set insert == true edge and every RelayTransactionHashes is built from that function; (r5) get_transaction '
+    'announced-set insert == true edge, every RelayTransactionHashes is built from that function, every HashSet<PeerId> call site '
+    'is the creation in push or that insert (grow-only), and push re-uses the set of an entry it replaces; (r5) get_transaction '
     'reports pending only from a pool hit after a store miss.')
-NOT_DECIDED = ('Script / capacity / since verification itself (ckb-verification, trusted); that re-submitting the same '
-               'transaction resets its announced-peer set; cycles arithmetic.')
+NOT_DECIDED = 'Script / capacity / since verification itself (ckb-verification, trusted); cycles arithmetic.'
 
 SEND = '<TransactionRpcImpl as TransactionRpc>::send_transaction'
 GETTX = '<TransactionRpcImpl as TransactionRpc>::get_transaction'
